@@ -109,7 +109,7 @@ Theorem setFS_pure s f r s' : set_fs rx s f r = Ok s' -> viewof s' = viewof s.
 Proof.
   unfold set_fs. intros H.
   assert (forall re, viewof (mkState rx (line rx s) (line_true rx s) (fields rx s) (fields_true rx s) (have rx s) (nf rx s)
-                                f re (saved_fs rx s) (saved_re rx s) (ofs rx s) (rs rx s) (inmode rx s) (outmode rx s))
+                                f re (saved_fs rx s) (saved_re rx s) (saved_rs rx s) (saved_inmode rx s) (ofs rx s) (rs rx s) (inmode rx s) (outmode rx s))
                      = viewof s) as Hv.
   { intros re. unfold view, ensure_fields. proj.
     destruct (have rx s); [reflexivity|].
@@ -133,18 +133,39 @@ Proof.
   destruct (split_record rx all_matches _ _ _ _ _); reflexivity.
 Qed.
 
-(* the whole class at once, on exec_op *)
+Theorem setRS_pure s r : viewof (set_rs rx s r) = viewof s.
+Proof.
+  unfold view, ensure_fields, set_rs. proj.
+  destruct (have rx s); [reflexivity|].
+  destruct (split_record rx all_matches _ _ _ _ _); reflexivity.
+Qed.
+
+Theorem setInMode_pure s m : viewof (set_inmode rx s m) = viewof s.
+Proof.
+  unfold view, ensure_fields, set_inmode. proj.
+  destruct (have rx s); [reflexivity|].
+  destruct (split_record rx all_matches _ _ _ _ _); reflexivity.
+Qed.
+
+(* the whole class at once, on exec_op: everything except record arrival and the assignments *)
 Definition is_pure (o : op) : bool :=
-  match o with GetField _ _ | GetNF _ | ViewAll _ | SetFS _ _ _ | SetOFS _ _ | SetOutMode _ _ => true | _ => false end.
+  match o with
+  | GetField _ _ | GetNF _ | ViewAll _ | GetlineVar _ _
+  | SetFS _ _ _ | SetOFS _ _ | SetRS _ _ | SetInMode _ _ | SetOutMode _ _ => true
+  | _ => false
+  end.
 
 Theorem pure_ops_keep_view s o s' w :
   is_pure o = true -> exec s o = Ok (s', w) -> viewof s' = viewof s.
 Proof.
-  intros Hp H. destruct o as [t|i|i t|i t|i f| |v|f|fsv r|o|r|m|m| ]; try discriminate Hp;
+  intros Hp H. destruct o as [t|i|i t|i t|t|i f| |v|f|fsv r|o|r|m|m| ]; try discriminate Hp;
     try (eapply reads_are_pure; [|exact H]; reflexivity); cbn [exec_op] in H.
+  - injection H as <- _. reflexivity.
   - destruct (set_fs rx s fsv r) as [s1| | |] eqn:E; cbn [rbind] in H; try discriminate.
     injection H as <- _. exact (setFS_pure _ _ _ _ E).
   - injection H as <- _. apply setOFS_pure.
+  - injection H as <- _. apply setRS_pure.
+  - injection H as <- _. apply setInMode_pure.
   - injection H as <- _. apply setOutMode_pure.
 Qed.
 
@@ -253,7 +274,7 @@ Qed.
 
 Theorem exec_no_panic s o : Inv s -> op_safe o -> exec s o <> Panic.
 Proof.
-  intros HI Hsafe. destruct o as [t|i|i t|i t|i f| |v|f|fsv r|o|r|m|m| ]; cbn [exec_op].
+  intros HI Hsafe. destruct o as [t|i|i t|i t|t|i f| |v|f|fsv r|o|r|m|m| ]; cbn [exec_op].
   - discriminate.
   - destruct (eval_idx rx all_matches s i) as [[s0 k]| | |] eqn:E0; cbn [rbind]; try discriminate.
     + pose proof (get_field_no_panic s0 k (Inv_eval_idx rx all_matches am_sorted _ _ _ _ HI E0)) as Hg.
@@ -267,6 +288,7 @@ Proof.
     + pose proof (set_field_no_panic s0 k t (Inv_eval_idx rx all_matches am_sorted _ _ _ _ HI E0)) as Hg.
       destruct (setf s0 k t); cbn [rbind]; congruence.
     + exfalso. exact (eval_idx_no_panic s i HI E0).
+  - discriminate.
   - destruct (eval_idx rx all_matches s i) as [[s0 k]| | |] eqn:E0; cbn [rbind]; try discriminate.
     + pose proof (Inv_eval_idx rx all_matches am_sorted _ _ _ _ HI E0) as HI0.
       pose proof (get_field_no_panic s0 k HI0) as Hg.
@@ -385,7 +407,7 @@ Qed.
 Theorem InvNF_step s o s' w :
   Inv s -> InvNF s -> op_nf_guard o -> exec s o = Ok (s', w) -> InvNF s'.
 Proof.
-  intros HI HN Hg H. destruct o as [t|i|i t|i t|i f| |v|f|fsv r|o|r|m|m| ]; cbn [exec_op] in H.
+  intros HI HN Hg H. destruct o as [t|i|i t|i t|t|i f| |v|f|fsv r|o|r|m|m| ]; cbn [exec_op] in H.
   - injection H as <- _. unfold InvNF, set_line. proj. discriminate.
   - destruct (eval_idx rx all_matches s i) as [[s0 k]| | |] eqn:E0; cbn [rbind] in H; try discriminate.
     destruct (getf s0 k) as [[[s1 f] t]| | |] eqn:E1; cbn [rbind] in H; try discriminate.
@@ -398,6 +420,7 @@ Proof.
     destruct (setf s0 k t) as [s1| | |] eqn:E1; cbn [rbind] in H; try discriminate.
     injection H as <- _.
     exact (InvNF_set_field _ _ _ _ (Inv_eval_idx rx all_matches am_sorted _ _ _ _ HI E0) (InvNF_eval_idx _ _ _ _ HN E0) E1).
+  - injection H as <- _. exact HN.
   - destruct (eval_idx rx all_matches s i) as [[s0 k]| | |] eqn:E0; cbn [rbind] in H; try discriminate.
     destruct (getf s0 k) as [[[s1 old] tt]| | |] eqn:E1; cbn [rbind] in H; try discriminate.
     pose proof (Inv_eval_idx rx all_matches am_sorted _ _ _ _ HI E0) as HI0.
